@@ -245,15 +245,16 @@ Proof.
   - apply bool_eqb_ok.
 Qed.
 
-(* the verdict of the checker on a (before, after) pair: footprint respected, and only pops when lacking *)
-Definition frame_verdict (m : mask) (nd : need) (before after : state) : bool :=
-  same_outside_b m before after && (if lacking_in nd before then only_pops_b before after else true).
+(* the verdict of the checker on a (before, after) pair: footprint respected, and only pops when
+   the instruction does not apply ([u]: an operand is lacking or the guard fails) *)
+Definition frame_verdict (m : mask) (u : bool) (before after : state) : bool :=
+  same_outside_b m before after && (if u then only_pops_b before after else true).
 
-Theorem frame_verdict_ok m nd b a :
-  frame_verdict m nd b a = true <-> same_outside m b a /\ (lacking_in nd b = true -> only_pops b a).
+Theorem frame_verdict_ok m u b a :
+  frame_verdict m u b a = true <-> same_outside m b a /\ (u = true -> only_pops b a).
 Proof.
   unfold frame_verdict. rewrite andb_true_iff, same_outside_b_ok.
-  destruct (lacking_in nd b).
+  destruct u.
   - rewrite only_pops_b_ok. tauto.
   - split; [intros [H _]; split; [exact H|intros D; discriminate D]|intros [H _]; auto].
 Qed.
